@@ -347,3 +347,26 @@ reg(Prop("C15", "Transposition table returns only what was stored for that key",
          assumptions=["stores inside the property's domain: depth 0..63, ply 0..63, bound type 0..2, |score| <= 32000 (int16 no-wrap), table of 1..2^31 buckets",
                       "keys whose 16 signature bits are zero are excluded from the no-phantom and frame clauses (read-your-write is proved for them too)"],
          design_ref="5/C15"))
+reg(Prop("C16", "Move picker yields every pseudo-legal move exactly once, hash move first", "Properties/C16.v",
+         [StreamCfg("c16p", 2500, 60000, judge="judge_c16p",
+                    rule="random legal play-outs (0..59 plies) from the start position and the 126 roots of debug/standard.epd; "
+                         "hash move in {none, generated moves (all of them on the first roots), random 15 bit encodings, own piece to a "
+                         "random square, generated moves with bogus promotion bits (F1)}; MoveRanker pre-driven by 0..44 random FailHigh "
+                         "calls (depths up to 127: cells at +-1024); history stack 0..3 entries; lower store frame of 0..2048 moves "
+                         "(incl. the overflow boundary); in 60% of the cases the weight of every yielded entry is overwritten between the Next calls as the "
+                         "search does (search scores, -Inf, or the sentinel / threshold / extreme values); non-trivial = the position has moves; "
+                         "distinct by (fen, hash move, drive, base)"),
+          StreamCfg("c16h", 800, 20000, judge="judge_c16h",
+                    rule="sequences of MoveRanker.FailHigh calls on real positions (search-like depths, saturation with depth 30..127, "
+                         "40..120 same-sign small updates, any int8 depth / int16 weight), direct History/CaptHist/Continuation.Add "
+                         "sequences with arbitrary int16 bonuses, then RankQuiet of every quiet move; every touched cell read back "
+                         "through LookUp; 3% malformed history-stack entries (Go panic = model panic)")],
+         trusted=["hook heur/export_verif_c16.go (MoveRanker.VerifTables returns the four unexported store pointers; cells are read "
+                  "with the public LookUp methods)",
+                  "the picker model is abstract over the position: IsPseudoLegal's answer, the generated noisy/quiet lists and the "
+                  "exchange evaluation inside RankNoisy are inputs (their correctness is C05/C01/C18); the correspondence feeds the "
+                  "values the implementation produced"],
+         assumptions=["hypotheses of C16_picker: IsPseudoLegal(hash move) <-> hash move among the generated moves (C05), generated moves "
+                      "pairwise distinct (C01/C05), base + 1 + generated moves <= StoreSize (store_ok, DESIGN O2)",
+                      "hash move encodings are the 2^15 values of the property's domain (bit 15 clear)"],
+         design_ref="5/C16"))
